@@ -384,6 +384,20 @@ def _raii_flag_protocol(b, sym, facts):
     return None
 
 
+def _in_write_section(b, sym, facts, y, prims):
+    """An await belongs to the frame write when a write of the frame is still ahead of it (another primitive can be reached) or still in
+    progress (the test of a primitive's result can be reached).  Awaits that follow the section in the same function - a burst sender
+    waiting for its responses - are outside it."""
+    rs = b.reachable((y,))
+    for i, _ in prims:
+        if i in rs and i != y:
+            return True
+        for (sw, succ_t, fail_t) in result_switches(b, sym, facts, i):
+            if sw in rs:
+                return True
+    return False
+
+
 def run(facts, R):
     has_ws = "websocket" in facts.features
     # ------------------------------------------------------------------ TCP connection functions
@@ -482,7 +496,7 @@ def run(facts, R):
             first = min(i for i, _ in prims)
             n = 0
             for y in ys:
-                if y in b.reachable((first,)):
+                if y in b.reachable((first,)) and _in_write_section(b, sym, facts, y, prims):
                     n += 1
                     held = [g for g in guards if g in init_at_point(b, init, term_pt(b, y))]
                     R.check(bool(held), "one-lock-per-frame", fn, "guard live across write await",
@@ -630,7 +644,7 @@ def run(facts, R):
                 # yields of the poll loops of the write futures: reachable from a write prim before the next prim
                 in_section = any(y in b.reachable((i,)) for i, _ in prims) and any(j in b.reachable((y,)) or True for j, _ in prims)
                 after_first = y in b.reachable((first,))
-                if not after_first:
+                if not after_first or not _in_write_section(b, sym, facts, y, prims):
                     continue
                 n += 1
                 covered = False
